@@ -1112,9 +1112,23 @@ func (u *Unit) paramScope(fi *FuncInfo, recv *Value, args []Value) map[string]Va
 }
 
 func (u *Unit) callByContract(c *ast.CallExpr, fi *FuncInfo, blk *Block, recv *Value, args []Value, env *Env) []Outcome {
-	for _, a := range args {
-		if a.Sort == SFn {
-			u.checkStableCaptures(env, u.knownLits[a.S], c)
+	if blk.Opts["holds-callbacks"] != "" {
+		// the callee only stores the functions it is given (proved of the callee: "holds-callbacks" obligations); the point
+		// after which their captured variables must not change is the next call that may run them
+		for _, a := range args {
+			if a.Sort == SFn && u.knownLits[a.S] != nil {
+				u.heldLits = append(u.heldLits, u.knownLits[a.S])
+			}
+		}
+	} else {
+		for _, li := range u.heldLits {
+			u.checkStableCaptures(env, li, c)
+		}
+		u.heldLits = nil
+		for _, a := range args {
+			if a.Sort == SFn {
+				u.checkStableCaptures(env, u.knownLits[a.S], c)
+			}
 		}
 	}
 	u.usedContracts[fi.Key] = blk.Prop
@@ -1277,9 +1291,29 @@ func (u *Unit) callByContract(c *ast.CallExpr, fi *FuncInfo, blk *Block, recv *V
 			env.aliasTy[fi.Obj.Name()+"_"+name] = v.Ty
 		}
 	}
+	// a callee that was handed function literals of this activation may have run them: the locals they assign are unknown now
+	// (unless the callee only stores them: those run, at the earliest, at a later call)
+	{
+		given := map[string]bool{}
+		for _, a := range args {
+			if a.Sort == SFn && u.knownLits[a.S] != nil {
+				given[a.S] = true
+			}
+		}
+		if len(given) > 0 && blk.Opts["holds-callbacks"] == "" {
+			u.havocLitAssigned(env, given)
+		}
+	}
 	for name, v := range u.paramScope(fi, recv, args) {
 		env.alias[fi.Obj.Name()+"_arg_"+name] = v.Term
 		env.aliasTy[fi.Obj.Name()+"_arg_"+name] = v.Ty
+		// also under the name the parameter had when the contracts were written
+		for oldName, newName := range u.Prog.renames(fi) {
+			if newName == name {
+				env.alias[fi.Obj.Name()+"_arg_"+oldName] = v.Term
+				env.aliasTy[fi.Obj.Name()+"_arg_"+oldName] = v.Ty
+			}
+		}
 	}
 	sc.post = true
 	for _, cl := range blk.Of("ensures") {
@@ -1473,8 +1507,8 @@ func (u *Unit) guardedCall(c *ast.CallExpr, se *ast.SelectorExpr, env *Env) bool
 	if !ok || fse.Sel.Name != parts[0] {
 		return false
 	}
-	lockKey := u.exprText(fse.X) + "." + parts[1]
-	u.assert(env, "perm/exclusive/"+u.exprText(se), "perm", c.Pos(), "call on the guarded field "+u.exprText(fse)+" requires "+lockKey+" held exclusively (Lock, not RLock)", boolTerm(env.held[lockKey] == "W"))
+	lockKey := u.baseKey(fse.X, env) + "." + parts[1]
+	u.assert(env, "perm/exclusive/"+u.exprText(se), "perm", c.Pos(), "call on the guarded field "+u.exprText(fse)+" requires "+u.exprText(fse.X)+"."+parts[1]+" held exclusively (Lock, not RLock)", boolTerm(env.held[lockKey] == "W"))
 	env.delegated++
 	return true
 }
